@@ -302,6 +302,115 @@ pub fn check_text(t: &str, stats: &mut Stats) {
     }
 }
 
+/// "Continues as configured": a UTF-8 text with single malformed sequences put between its parts.
+/// Each bad chunk is one maximal invalid subsequence (a lone continuation byte, an impossible byte,
+/// or a lead byte whose sequence is cut short by the ASCII character that follows), so it stands for
+/// exactly one U+FFFD under `Replace`, nothing under `Ignore`, and one callback invocation.
+pub fn check_damaged_utf8(parts: &[String], bad: &[Vec<u8>], stats: &mut Stats) {
+    let mut bytes: Vec<u8> = vec![];
+    for (i, p) in parts.iter().enumerate() {
+        bytes.extend_from_slice(p.as_bytes());
+        if let Some(b) = bad.get(i) {
+            bytes.extend_from_slice(b);
+        }
+    }
+    let n_bad = bad.len().min(parts.len());
+    let joined = |sep: &str| -> String {
+        let mut t = String::new();
+        for (i, p) in parts.iter().enumerate() {
+            t.push_str(p);
+            if i < n_bad {
+                t.push_str(sep);
+            }
+        }
+        t
+    };
+    let dcase = |trap: usize| {
+        J::obj(vec![
+            ("bytes", J::s(&hex(&bytes))),
+            ("trap", J::s(TRAPS[trap])),
+            ("parts", J::Arr(parts.iter().map(|p| J::s(p)).collect())),
+            ("bad", J::Arr(bad.iter().map(|b| J::s(&hex(b))).collect())),
+        ])
+    };
+    for (trap, sep) in [(1usize, ""), (2, "\u{fffd}"), (3, "?")] {
+        let want_text = joined(sep);
+        if !crate::events::terminates(&want_text) {
+            continue;
+        }
+        let Ok(want) = catch(|| match Yaml::load_from_str(&want_text) {
+            Ok(d) => DecodeOutcome::Docs(d.iter().map(cn_yaml).collect()),
+            Err(e) => DecodeOutcome::Scan(e.to_string()),
+        }) else {
+            continue;
+        };
+        CALLBACK_CALLS.store(0, Ordering::SeqCst);
+        CALLBACK_BREAK.store(0, Ordering::SeqCst);
+        let (r, _, spin) = monitored_decode(&bytes, trap);
+        stats.cnt("damaged_utf8_decodes", 1);
+        if spin.is_some() {
+            continue; // reported by check_bytes on the same kind of input
+        }
+        let Ok(out) = r else { continue };
+        if out != want {
+            viol(
+                stats,
+                format!("C18/{}-trap/differs-from-configured-outcome", TRAPS[trap]),
+                format!("{} trap: decoding gives {out:?}; the text with every malformed sequence {} loads as {want:?}", TRAPS[trap], match trap {
+                    1 => "dropped",
+                    2 => "replaced by U+FFFD",
+                    _ => "replaced by the callback's output",
+                }),
+                dcase(trap),
+            );
+        }
+        if trap == 3 && CALLBACK_CALLS.load(Ordering::SeqCst) != n_bad {
+            viol(
+                stats,
+                "C18/callback/invocation-count".into(),
+                format!("{n_bad} malformed sequences, callback invoked {} times", CALLBACK_CALLS.load(Ordering::SeqCst)),
+                dcase(trap),
+            );
+        }
+    }
+    let mut key = bytes.clone();
+    key.push(0xfd);
+    stats.eval(Some(&key));
+}
+
+fn gen_damaged_utf8(r: &mut Rng) -> (Vec<String>, Vec<Vec<u8>>) {
+    let n_parts = r.range(2, 6);
+    let mut parts = vec![];
+    for i in 0..n_parts {
+        // every part starts with an ASCII character (the first one decides the encoding detection,
+        // the others end a truncated sequence) and holds no U+FFFD or `?` of its own
+        let mut t = String::new();
+        t.push(r.pick(&['a', 'k', '-', 'x', '1', ' ']));
+        if i == 0 {
+            t = r.pick(&["a", "k", "- ", "x"]).to_string();
+            t.push(r.pick(&['a', 'b', ' ']));
+        }
+        for _ in 0..r.below(8) {
+            t.push(r.pick(&['a', 'b', ' ', ':', '-', '\n', 'é', '中', '😀', '"', '1', 'k']));
+        }
+        parts.push(t);
+    }
+    let mut bad = vec![];
+    for _ in 0..n_parts - 1 {
+        bad.push(match r.below(8) {
+            0 => vec![0x80],
+            1 => vec![0xBF],
+            2 => vec![0xFF],
+            3 => vec![0xFE],
+            4 => vec![0xC3],
+            5 => vec![0xE4, 0xB8],
+            6 => vec![0xF0, 0x9F, 0x98],
+            _ => vec![0xC0],
+        });
+    }
+    (parts, bad)
+}
+
 const DOC_SNIPPETS: &[&str] = &["a: 1\n", "- é\n- 中\n", "k: \"😀\"\n", "[1, 2]\n", "--- x\n", "x: |\n  ü\n", "# c\nq: 'ß'\n", "? a\n: b\n", "-", "a", "'", "{a: [b, \"c\"]}", "\n", " "];
 const CHARS: &[char] = &['a', 'b', ' ', ':', '-', '\n', 'é', 'ü', 'ß', '中', '文', '字', '😀', '\u{10ffff}', '"', '1', '\u{a0}', '\u{2028}', 'Z', 'k'];
 
@@ -441,13 +550,27 @@ pub fn run_c18(tier: &str, seed: u64, shard: u64, nshards: u64, scale: f64, stat
         check_bytes(&b, trap, stats);
         stats.eval(Some(&b));
     }
+    // (n) damaged UTF-8 under the continuing traps
+    let per = ((if thorough { 400_000.0 } else { 20_000.0 }) * scale) as u64 / nshards;
+    let mut rr = Rng::derive(seed, 0xC18D, shard);
+    for i in 0..per {
+        if i % 4000 == 0 {
+            emit_progress(i);
+        }
+        let (parts, bad) = gen_damaged_utf8(&mut rr);
+        check_damaged_utf8(&parts, &bad, stats);
+    }
 }
 
 pub fn replay_c18(case: &J, stats: &mut Stats) {
     let b = unhex(&case.str_of("bytes"));
     let trap = TRAPS.iter().position(|t| *t == case.str_of("trap")).unwrap_or(0);
     stats.eval(Some(&b));
-    if let Some(t) = case.get("text").and_then(J::as_str) {
+    if let Some(parts) = case.get("parts").and_then(J::as_arr) {
+        let parts: Vec<String> = parts.iter().filter_map(|x| x.as_str().map(str::to_string)).collect();
+        let bad: Vec<Vec<u8>> = case.get("bad").and_then(J::as_arr).map(|a| a.iter().filter_map(|x| x.as_str().map(unhex)).collect()).unwrap_or_default();
+        check_damaged_utf8(&parts, &bad, stats);
+    } else if let Some(t) = case.get("text").and_then(J::as_str) {
         check_text(t, stats);
     } else {
         check_bytes(&b, trap, stats);
